@@ -23,6 +23,17 @@ class SlotsSource:
         self.aguard, self.start = poison, start
 
 
+class Handle:
+    """An unpicklable value object whose repr does not show its content (as most handles / connections / sessions)."""
+
+    def __init__(self, poison, start):
+        self.guard = poison
+        self.start = start
+
+    def __repr__(self):
+        return "<Handle>"
+
+
 def _gen():
     yield 1
 
@@ -37,6 +48,7 @@ POISONS = {
 SHAPES = {
     "instance-attribute": lambda p, x: Source(p, x),
     "slots-attribute": lambda p, x: SlotsSource(p, x),
+    "instance-lossy-repr": lambda p, x: Handle(p, x),
     "list-after": lambda p, x: [p, x],
     "tuple-after": lambda p, x: (p, x),
     "dict-value-after": lambda p, x: {"a": p, "b": x},
@@ -77,7 +89,7 @@ def run_hash(res, joblib):
 
 
 def _leaf(v):
-    if isinstance(v, (Source, SlotsSource)):
+    if isinstance(v, (Source, SlotsSource, Handle)):
         return v.start
     if isinstance(v, dict):
         return _leaf(v["b"] if "b" in v else v["k"])
@@ -117,3 +129,45 @@ def run_memory(res, joblib):
                 import shutil
 
                 shutil.rmtree(d, ignore_errors=True)
+
+
+# values that differ only in the TYPE of a key / element of a container whose keys cannot be sorted (mixed types): the order
+# fallback of the Hasher must keep them apart
+TWINS = [
+    ({1: "x", "name": "y"}, {"1": "x", "name": "y"}),
+    ({1, "a"}, {"1", "a"}),
+    (frozenset([1, "a"]), frozenset(["1", "a"])),
+    ({1.5: "x", "k": 0}, {"1.5": "x", "k": 0}),
+    ({None: 1, "k": 2}, {"None": 1, "k": 2}),
+    ({(1, 2): "t", "k": 0}, {"(1, 2)": "t", "k": 0}),
+    ({b"a": 1, "a": 2, 3: 4}, {"b'a'": 1, "a": 2, 3: 4}),
+    ([{1: "x", "name": "y"}], [{"1": "x", "name": "y"}]),
+]
+
+
+def describe(v):
+    return repr(v)
+
+
+def run_twins(res, joblib):
+    """C02 (and C08 through joblib.hash): a cached function called with v0 then with its twin v1 returns f(v1)."""
+    for k, (v0, v1) in enumerate(TWINS):
+        d = tempfile.mkdtemp(prefix="verif-twin-")
+        try:
+            cached = joblib.Memory(d, verbose=0).cache(describe)
+            outs = []
+            for v in (v0, v1):
+                try:
+                    outs.append(("ok", cached(v)))
+                except Exception as e:  # noqa: BLE001
+                    outs.append(("raises", type(e).__name__))
+            res.evaluations += 1
+            res.count("twin-probe:" + outs[1][0])
+            res.nontrivial.add(("twin", k))
+            if outs[1] != ("ok", describe(v1)):
+                res.fail("wrong-cached-value:mixed-type-keys-vs-their-string-twins", dict(kind="poison-probe", twin=k, v0=repr(v0), v1=repr(v1)),
+                         f"cached(v0) = {outs[0]}, then cached(v1) = {outs[1]}")
+        finally:
+            import shutil
+
+            shutil.rmtree(d, ignore_errors=True)
